@@ -321,6 +321,55 @@ def F36():
     assert out.count("class child(") == 1 and "cstruct.__anonymous_0__" not in out, out
 
 
+def F37():
+    from dissect.cstruct.types import BaseType
+
+    class Cust(BaseType):
+        @classmethod
+        def _read(cls, stream, context=None):
+            d = stream.read(2)
+            if len(d) != 2:
+                raise EOFError
+            return type.__call__(cls, d)
+
+        def __init__(self, v=b"\0\0"):
+            self.v = v
+
+    out = []
+    for comp in (False, True):
+        cs = cstruct()
+        cs.add_custom_type("cust", Cust, 2)
+        cs.load("struct t { uint8 a; cust c[2]; uint8 b; };", compiled=comp)
+        fh = io.BytesIO(bytes(range(1, 10)))
+        v = cs.t(fh)
+        out.append((v.a, [c.v for c in v.c], v.b, fh.tell()))
+    assert out[0] == out[1], out
+
+
+def F38():
+    out = []
+    for comp in (False, True):
+        cs = cstruct()
+        cs.load("struct t { uint24 a; uint8 b[0]; };", compiled=comp)
+        v = cs.t(b"\x01\x02\x03\x04")
+        out.append((v.a, list(v.b)))
+    assert out[0] == out[1], out
+
+
+def F39():
+    cs = cstruct()
+    cs.load("struct p { uint8 x; uint8 y; }; union inner { struct p s; uint16 w; }; union outer { union inner i; uint32 d; };")
+    o = cs.outer(b"\x01\x02\x03\x04")
+    o.i.s.x = 9
+    assert o.d == 0x04030209 and o.i.w == 0x0209 and o.dumps() == b"\x09\x02\x03\x04", (o, o.dumps())
+
+
+def F40():
+    cs = cstruct()
+    cs.load("struct S { char a:4; };")
+    assert cs.S(b"\x21").a == cs.S(io.BytesIO(b"\x21")).a == cs.S.reads(b"\x21").a == 1, (cs.S(b"\x21"), cs.S.reads(b"\x21"))
+
+
 ALL = {k: v for k, v in globals().items() if k.startswith("F") and callable(v)}
 
 if __name__ == "__main__":
